@@ -72,7 +72,7 @@ func main() {
 			sub := rand.New(rand.NewSource(cs))
 			emit(w, runDisplacePairs(genDisplaceCase(sub, i, cs), sub))
 		}
-	case "curry", "saveto", "filler", "postact":
+	case "curry", "saveto", "filler", "postact", "methodcall":
 		rng := rand.New(rand.NewSource(*seed))
 		var lines []string
 		switch cmd {
@@ -84,6 +84,8 @@ func main() {
 			lines = runSaveTo(rng, *n)
 		case "filler":
 			lines = runFiller(rng, *n)
+		case "methodcall":
+			lines = runMethodCall()
 		}
 		for _, l := range lines {
 			fmt.Fprintln(w, l)
